@@ -7,6 +7,14 @@ ids = [p["id"] for p in props]
 
 # id -> (technique, level text, level note, design ref)
 CLAIMED = {
+ "C03": ("proptest-generated values rendered by an independent randomised spec-conformant printer (choice tape); oracle = the printer's input value; sequence position invariant",
+         "Generated-input search over (value tree, spelling) pairs: ~35 optional syntax constructs (white-space set, comments with each EOL, signs, leading zeros, fraction-only reals, octal/named/ignored escapes, line continuations, balanced parentheses, hex strings with white-space/odd digits, #xx names and keys, separator elision, stream EOLs) in four parse entry points. The evidence lists per-construct counts. Exploration: constructs are sampled in combination, not enumerated.",
+         "the printer is my reading of ISO 32000-1 7.2-7.3; reals denote std's correctly-rounded f32 of their decimal text",
+         "DESIGN.md §4 C03"),
+ "C04": ("proptest-generated Primitive trees + exhaustive 1/2-byte strings and all Unicode scalars as names/keys; round-trip oracle serialize->parse in each placement the writer uses",
+         "Generated-input search over Primitive trees placed as indirect body (as save writes it), dictionary value, array element, SCN and BDC/DP operands; every 1- and 2-byte string and every Unicode scalar (as name and as key) exhaustively. Round-trip equality up to Integer/Real identification and no panic in serialize.",
+         "placement strings mirror Storage::save and serialize_ops; canonical comparison identifies Integer n with Real n.0",
+         "DESIGN.md §4 C04"),
  "C16": ("exhaustive enumeration of short inputs + proptest-generated data; round-trip and differential oracle against an independent reference decoder",
          "Generated-input search: every byte string up to length 2 (quick) / 3 (thorough), single-value runs to 70000 bytes and structured random data to 64 KiB, for all four encodable filters; each must round-trip through the library decoder and be decoded to the same bytes by an independent decoder. Exploration, not proof: strings longer than 3 bytes are sampled.",
          "trusts harness/src/engine/filters.rs reference decoders (LZW cross-checked against weezl) and flate2's zlib",
